@@ -425,6 +425,8 @@ class Parser:
             return True
 
         if ttype == "left_cbracket":
+            if not self.__curcommand.accept_children:
+                return False
             self.__push_expected_bracket("right_cbracket", b"}")
             self.__cstate = None
             return True
